@@ -729,72 +729,6 @@ func (e *Eng) applyContract(con *Contract, fi *FuncInfo, name string, recv *Val,
 	}
 	env, resNames := e.contractEnv(con, fi, recv, args)
 	cc := e.calleePkgCtx(con, fi, c, env, nil)
-	_ = e.callOrd[x]
-	if !c.spec {
-		for k, r := range con.Requires {
-			g := e.specBool(r.Expr, cc)
-			lbl := fmt.Sprintf("call:%s/requires#%d", shortName(name), k)
-			if r.Label != "" {
-				lbl = fmt.Sprintf("call:%s/requires:%s", shortName(name), r.Label)
-			}
-			e.oblig("call-requires", lbl, c.st, g, x.Pos())
-			c.st.assume(g)
-		}
-	}
-	pre := c.st.clone()
-	detRes, haveDet := e.detCallResult(con, fi, name, env, resT, c)
-	if c.spec && !(con.Pure || con.Effect == "pure") {
-		// a contract expression naming a deterministic function denotes its result
-		// (an uninterpreted function of the declared inputs); it has no effects here
-		if haveDet {
-			return detRes
-		}
-		panic("spec: call to " + name + ", which is neither pure nor declared deterministic")
-	}
-	// effects
-	switch {
-	case con.Pure || con.Effect == "pure":
-	case con.Extern && con.Effect == "havoc":
-		e.havocAll(c.st)
-	case con.Extern:
-		for _, cb := range con.Callbacks {
-			// the function literal given for this parameter runs zero or more times: everything
-			// its body can assign is forgotten, as for a loop without an invariant; anything
-			// other than a literal is not understood and forgets all memory
-			idx := -1
-			for i, a := range con.Params {
-				if a == cb {
-					idx = i
-				}
-			}
-			if recv != nil {
-				idx--
-			}
-			var lit *ast.FuncLit
-			if x != nil && idx >= 0 && idx < len(x.Args) {
-				lit, _ = ast.Unparen(x.Args[idx]).(*ast.FuncLit)
-			}
-			if lit == nil {
-				e.havocAll(c.st)
-			} else {
-				e.havocStmt(lit.Body, c.st)
-			}
-		}
-		for _, w := range con.Writes {
-			if v, ok := env[w]; ok {
-				if con.SkipTag != "" {
-					e.havocFieldsExceptTag(c.st, v, con.SkipTag)
-				} else {
-					e.havocPointee(c.st, v)
-				}
-			}
-		}
-	case !con.HasAssign:
-		e.havocAll(c.st)
-	}
-	for _, it := range con.Assigns {
-		e.havocItem(it, con, fi, env, c)
-	}
 	// ghost variables declared inside the callee's contract are private to one
 	// activation of the callee: clauses about them say nothing to a caller
 	local := map[string]bool{}
@@ -861,6 +795,75 @@ func (e *Eng) applyContract(con *Contract, fi *FuncInfo, name string, recv *Val,
 			}
 		}
 		return false
+	}
+	_ = e.callOrd[x]
+	if !c.spec {
+		for k, r := range con.Requires {
+			if mentionsLocal(r.Src) {
+				continue // about the callee's private ghost state at its entry: nothing for a caller to establish
+			}
+			g := e.specBool(r.Expr, cc)
+			lbl := fmt.Sprintf("call:%s/requires#%d", shortName(name), k)
+			if r.Label != "" {
+				lbl = fmt.Sprintf("call:%s/requires:%s", shortName(name), r.Label)
+			}
+			e.oblig("call-requires", lbl, c.st, g, x.Pos())
+			c.st.assume(g)
+		}
+	}
+	pre := c.st.clone()
+	detRes, haveDet := e.detCallResult(con, fi, name, env, resT, c)
+	if c.spec && !(con.Pure || con.Effect == "pure") {
+		// a contract expression naming a deterministic function denotes its result
+		// (an uninterpreted function of the declared inputs); it has no effects here
+		if haveDet {
+			return detRes
+		}
+		panic("spec: call to " + name + ", which is neither pure nor declared deterministic")
+	}
+	// effects
+	switch {
+	case con.Pure || con.Effect == "pure":
+	case con.Extern && con.Effect == "havoc":
+		e.havocAll(c.st)
+	case con.Extern:
+		for _, cb := range con.Callbacks {
+			// the function literal given for this parameter runs zero or more times: everything
+			// its body can assign is forgotten, as for a loop without an invariant; anything
+			// other than a literal is not understood and forgets all memory
+			idx := -1
+			for i, a := range con.Params {
+				if a == cb {
+					idx = i
+				}
+			}
+			if recv != nil {
+				idx--
+			}
+			var lit *ast.FuncLit
+			if x != nil && idx >= 0 && idx < len(x.Args) {
+				lit, _ = ast.Unparen(x.Args[idx]).(*ast.FuncLit)
+			}
+			if lit == nil {
+				e.havocAll(c.st)
+			} else {
+				e.havocStmt(lit.Body, c.st)
+			}
+		}
+		for _, w := range con.Writes {
+			if v, ok := env[w]; ok {
+				if con.SkipTag != "" {
+					e.havocFieldsExceptTag(c.st, v, con.SkipTag)
+				} else {
+					e.havocPointee(c.st, v)
+				}
+			}
+		}
+	case !con.HasAssign:
+		e.havocAll(c.st)
+	}
+	for _, it := range con.Assigns {
+		e.havocItem(it, con, fi, env, c)
 	}
 	// ghost state that the postconditions speak about is changed by the callee
 	for _, g := range sortedKeys(c.st.ghost) {
